@@ -194,7 +194,8 @@ func (p *Packet) ReadValue(sample int) int {
 	case []int64:
 		return int(d[sample])
 	default:
-		panic("Oh no! Type of d is not known in Packet.ReadValue()")
+		// A payload with a multi-component format is kept as raw bytes: it has no single sample value.
+		return 0
 	}
 }
 
